@@ -42,6 +42,7 @@ type Req struct {
 	Procs       int        `json:"procs,omitempty"`     // GOMAXPROCS for this call (0 = leave)
 	Yield       int        `json:"yield,omitempty"`     // reader, writer and callbacks yield / sleep (1 = Gosched, n>1 = n microseconds)
 	CancelAt    *int       `json:"cancelat,omitempty"`  // cancel the caller's context when the reader has delivered this many bytes (-1: before the call)
+	Color       bool       `json:"color,omitempty"`     // colours on (color.NoColor = false) for this call: what a program on a terminal has
 	CtxKind     string     `json:"ctxkind,omitempty"`   // "" : the caller's context ends by cancel(); "deadline": it ends as an expired deadline (Err() = DeadlineExceeded)
 	FailVisit   int        `json:"failvisit,omitempty"` // walk: the callback fails at its n-th call (counted over all goroutines)
 	FailNames   []string   `json:"failnames,omitempty"` // walk: the callback fails at every node with one of these names
@@ -112,7 +113,10 @@ type Rep struct {
 	Unforced    bool     `json:"unforced,omitempty"` // the plan could not be forced (a gate timed out)
 	PlanDone    int      `json:"plandone,omitempty"` // plan steps that happened in order
 	ElapsedUs   int64    `json:"elapsed_us,omitempty"`
-	Sub         []Rep    `json:"sub,omitempty"` // replies to Par
+	Sub         []Rep    `json:"sub,omitempty"`    // replies to Par
+	Stray       string   `json:"stray,omitempty"`  // bytes that arrived at the sink this operation has no business with (Output*: color.Output; Mkdir: none)
+	RawErr      string   `json:"rawerr,omitempty"` // err.Error() exactly as it was when the call returned
+	Held        []string `json:"held,omitempty"`   // Error() of the errors earlier calls of this process returned, read again now (after this call)
 }
 
 // Serve runs the worker loop on stdin/stdout.
